@@ -78,6 +78,11 @@ func (c *Chain) Project(ctx sdk.Context) map[string]any {
 	a := c.App
 	st := map[string]any{}
 	st["chain"] = map[string]any{"h": ctx.BlockHeight(), "t": ctx.BlockTime().Unix()}
+	userNames := []any{}
+	for _, n := range sortedKeys(c.Keys) { // accounts driven by private keys of the harness (everything else is protocol-owned)
+		userNames = append(userNames, n)
+	}
+	st["users"] = userNames
 
 	// ---- amm (first: assigns symbolic names of pool addresses)
 	pools := map[string]any{}
